@@ -28,7 +28,7 @@ from harness.common import cz, clist
 from harness import gen_ts
 
 I32MAX = 2 ** 31 - 1
-STEP_TIMEOUT = float(os.environ.get("VERIF_C09_STEP_TIMEOUT", "6"))
+STEP_TIMEOUT = float(os.environ.get("VERIF_C09_STEP_TIMEOUT", "4"))
 
 # ----------------------------------------------------------------------------------
 # symbolic boundary values
@@ -322,9 +322,9 @@ def resolve_one(c, kind, sym, needs="ts"):
     raise ValueError(kind)
 
 
-def snapshot(c):
-    """Row counts (and, with a tree sequence, tree state) at the start of a step: what the
-    oracle and the model need to classify the symbolic arguments."""
+def snapshot(c, o=None, st=None):
+    """State at the start of a step: what the oracle and the model need to classify the
+    symbolic arguments (row counts, node flags, breakpoints, the tree's parent array)."""
     env = {"tc": None, "ts": None}
     if c.tc is not None:
         env["tc"] = {t: len(getattr(c.tc, t)) for t in TABLES}
@@ -336,8 +336,23 @@ def snapshot(c):
                      "individuals": ts.num_individuals, "populations": ts.num_populations,
                      "migrations": ts.num_migrations, "provenances": ts.num_provenances}
         env["L"] = repr(float(ts.sequence_length))
+        if ts.num_nodes <= 64:
+            env["flags"] = [int(x) for x in ts.tables.nodes.flags]
+            env["bps"] = [repr(float(x)) for x in ts.breakpoints(as_array=True)]
         if c.tree is not None:
+            import _tskit
             env["tree_index"] = c.tree.index
+            env["sample_lists"] = bool(c.tree._ll_tree.get_options() & _tskit.SAMPLE_LISTS)
+            if ts.num_nodes <= 64:
+                env["parent"] = [int(x) for x in c.tree.parent_array]
+    if o is not None and o.name in ("table.set_columns_len", "table.append_columns_len") and c.tc is not None:
+        a = st.get("args", {})
+        if a.get("table") in ("sites", "mutations"):
+            t = getattr(c.tc, a["table"])
+            so = t.ancestral_state_offset if a["table"] == "sites" else t.derived_state_offset
+            sd = t.ancestral_state if a["table"] == "sites" else t.derived_state
+            env["cols"] = {"n": int(t.num_rows), "so": [int(x) for x in so], "mo": [int(x) for x in t.metadata_offset],
+                           "sl": int(len(sd)), "ml": int(len(t.metadata))}
     return env
 
 
@@ -370,7 +385,8 @@ def run_sequence(case, wfd):
             if o.needs == "ts" and c.ts is None:
                 r = ["skip", "no ts"]
             else:
-                env = snapshot(c)
+                env = snapshot(c, o, st)
+                emit("E %d %s" % (k, json.dumps(env)))
                 kw = resolve_args(c, o, st.get("args", {}))
                 val = o.fn(c, **kw)
                 r = ["ok", summarise(val)]
@@ -409,7 +425,7 @@ def fork_run(case):
     os.close(w)
     os.close(ew)
     buf, ebuf = b"", b""
-    started, done = None, {}
+    started, done, envs = None, {}, {}
     t_last = time.time()
     hang = False
     open_fds = {r, er}
@@ -455,6 +471,9 @@ def fork_run(case):
                 elif line.startswith("D "):
                     _d, k, js = line.split(" ", 2)
                     done[int(k)] = json.loads(js)
+                elif line.startswith("E "):
+                    _d, k, js = line.split(" ", 2)
+                    envs[int(k)] = json.loads(js)
                 elif line.startswith("X "):
                     adapter = line[2:]
         if not rl and now - t_last > STEP_TIMEOUT:
@@ -471,6 +490,8 @@ def fork_run(case):
         raise RuntimeError("child adapter error: " + adapter)
     nsteps = len(case["steps"])
     obs = {"base": done.get(-1), "steps": [done.get(k) for k in range(nsteps)], "died": None, "ubsan": []}
+    if started is not None and started >= 0 and done.get(started) is None and started in envs:
+        obs["env_at_death"] = envs[started]
     seen = set()
     for k, line in reports:
         if "runtime error:" in line:
@@ -697,6 +718,14 @@ def _mk_genotypes(g, ns):
     if g.get("aslist"):
         return a.tolist()
     return a
+
+
+@op("tree.ll_map_mutations", [("g", "raw"), ("anc", "raw")])
+def _(c, g, anc=None):
+    """The C-module entry point under Tree.map_mutations (no Python-side allele handling)."""
+    geno = _mk_genotypes(g, c.ts.num_samples)
+    a, tr = c.tree._ll_tree.map_mutations(geno, anc)
+    return [a, len(tr)]
 
 
 @op("tree.kc_distance_self", [("lam", "pos")])
@@ -1934,14 +1963,14 @@ class Monitor(Family):
 
     def shrink(self, case):
         steps = case["steps"]
-        for i in range(len(steps)):
-            if len(steps) > 1:
+        if len(steps) > 4:               # focused cases are already minimal
+            for i in range(len(steps)):
                 yield dict(case, steps=steps[:i] + steps[i + 1:])
 
     def coq_check(self, case, obs):
         terms = []
-        for st, r in zip(case["steps"], obs["steps"]):
-            t = model_term(st, r, obs, case)
+        for k, (st, r) in enumerate(zip(case["steps"], obs["steps"])):
+            t = model_term(k, st, r, obs, case)
             if t:
                 terms.append(t)
         if not terms:
@@ -1949,8 +1978,201 @@ class Monitor(Family):
         return " && ".join("(%s)" % t for t in terms)
 
 
-def model_term(st, r, obs, case):
+def _alloc(n, v=0):
+    return "(alloc %s %s)" % (cz(n), cz(v))
+
+
+def _observed(k, r, obs):
+    if r is not None:
+        return {"ok": "VOk", "exc": "VRaise"}.get(r[0])
+    d = obs.get("died")
+    if d and d.get("at") == k:
+        return {"asan": "VOOB", "hang": "VFuel"}.get(d["kind"])
     return None
+
+
+def _ints(vals):
+    return all(isinstance(v, int) and not isinstance(v, bool) for v in vals)
+
+
+def _fl_terms(env, x):
+    """Order-preserving integer encoding of the breakpoints and the position x."""
+    bps = [float(b) for b in env["bps"]]
+    vals = sorted(set(bps + ([x] if isinstance(x, (int, float)) and math.isfinite(x) else [])))
+    rank = {v: i for i, v in enumerate(vals)}
+    if isinstance(x, float) and math.isnan(x):
+        fx = "NaN"
+    elif x == float("inf"):
+        fx = "PInf"
+    elif x == float("-inf"):
+        fx = "NInf"
+    else:
+        fx = "(Fin %s)" % cz(rank[float(x)])
+    return clist([rank[b] for b in bps]), fx
+
+
+TREE_ARR = {"tree.parent", "tree.left_child", "tree.right_child", "tree.left_sib", "tree.right_sib",
+            "tree.num_children", "tree.edge"}
+TABLE_FIRST_ONLY = ("tc.", "table.")
+
+
+def _resize(a, n):
+    return [a[i % len(a)] for i in range(n)] if a else [0] * n
+
+
+def model_term(k, st, r, obs, case):
+    """Coq term `model verdict = implementation verdict` for the modelled entry points."""
+    v = _observed(k, r, obs)
+    env = (r[3] if r is not None and len(r) > 3 else None) or (obs.get("env_at_death") if r is None else None)
+    if v is None or env is None:
+        return None
+    opn, a = st["op"], st.get("args", {})
+    if opn.startswith(TABLE_FIRST_ONLY) and (k != 0 or case["base"]["kind"] != "valid"):
+        return None                      # tables drift along a sequence; arbitrary tables are monitored only
+    ts = env.get("ts")
+    m = None
+    if opn.startswith(("tree.", "ts.", "variant.")):
+        if ts is None or "flags" not in env:
+            return None
+        N, S, T = ts["nodes"], ts["samples"], ts["trees"]
+        fuel = "%d%%nat" % (N + 4)
+        if opn in TREE_ARR or opn in ("tree.num_samples", "tree.num_tracked_samples", "tree.time", "tree.depth"):
+            x = res_id(a["u"], N)
+            if not _ints([x]):
+                return None
+            if opn in TREE_ARR:
+                m = "Tree_array_get %s %s %s" % (_alloc(N + 1), cz(N), cz(x))
+            elif opn == "tree.time":
+                m = "Tree_get_time %s %s %s" % (_alloc(N), cz(N), cz(x))
+            elif opn == "tree.depth":
+                m = "Tree_depth %s %s %s %s" % (fuel, clist(env["parent"]), cz(N), cz(x))
+            else:
+                m = "Tree_get_num_samples %s %s %s" % (_alloc(N + 1), cz(N), cz(x))
+        elif opn == "tree.next_sample":
+            x = res_id(a["u"], S)
+            if not _ints([x]):
+                return None
+            m = "Tree_get_next_sample %s %s %s %s" % (_alloc(S), cz(S), "true" if env.get("sample_lists") else "false", cz(x))
+        elif opn == "tree.is_descendant":
+            x, y = res_id(a["u"], N), res_id(a["v"], N)
+            if not _ints([x, y]):
+                return None
+            m = "Tree_is_descendant %s %s %s %s %s" % (fuel, clist(env["parent"]), cz(N), cz(x), cz(y))
+        elif opn in ("tree.seek", "ts.at"):
+            x = res_pos(a["x"], float(env["L"]))
+            if isinstance(x, bool) or not isinstance(x, (int, float)):
+                return None
+            bps, fx = _fl_terms(env, float(x) if not isinstance(x, int) or abs(x) < 2 ** 1000 else float("inf"))
+            if isinstance(x, int) and abs(x) >= 2 ** 1000:
+                return None
+            i = -1 if opn == "ts.at" else env.get("tree_index", -1)
+            m = "tree_seek C09_seek_rejects_nan %d%%nat %s %s %s %s" % (T + 4, bps, cz(T), cz(i), fx)
+        elif opn in ("tree.seek_index", "ts.at_index"):
+            x = res_id(a["i"], T)
+            if not _ints([x]):
+                return None
+            m = "tree_seek_index %s %s %s" % (_alloc(T + 1), cz(T), cz(x))
+        elif opn == "ts.simplify" and a.get("samples") is not None:
+            ids = [res_id(s, N) for s in a["samples"]]
+            m = "simplifier_init_samples %s %s" % (cz(N), clist(ids))
+        elif opn == "ts.subset":
+            ids = [res_id(s, N) for s in a["nodes"]]
+            m = "table_collection_subset %s %s %s" % (cz(N), _alloc(N), clist(ids))
+        elif opn == "ts.ibd_within":
+            m = "ibd_within_init_current %s %s" % (cz(N), clist([res_id(s, N) for s in a["within"]]))
+        elif opn == "ts.ibd_between":
+            m = "ibd_between_init_current %s [%s; %s]" % (cz(N), clist([res_id(s, N) for s in a["a"]]),
+                                                         clist([res_id(s, N) for s in a["b"]]))
+        elif opn == "ts.link_ancestors":
+            m = "link_ancestors_init_current %s %s %s" % (cz(N), clist([res_id(s, N) for s in a["samples"]]),
+                                                         clist([res_id(s, N) for s in a["ancestors"]]))
+        elif opn in ("ts.variants", "ts.genotype_matrix") and a.get("samples") is not None:
+            imp = (a.get("opts") or {}).get("isolated_as_missing") is False
+            m = "variant_init_samples %s %s %s %s" % ("true" if imp else "false", cz(N), clist(env["flags"]),
+                                                     clist([res_id(s, N) for s in a["samples"]]))
+        elif opn in ("tree.new", "ts.trees_tracked") and a.get("tracked") is not None:
+            m = "Tree_init_tracked %s %s %s %s %s" % (fuel, cz(N), clist(env["flags"]), _alloc(N + 1, -1),
+                                                     clist([res_id(s, N) for s in a["tracked"]]))
+        elif opn == "ts.union_self":
+            mp, opts = a["mapping"], a.get("opts") or {}
+            if opts.get("check_shared_equality", True) or mp.get("aslist") or mp.get("dtype"):
+                return None
+            mapping = [int(x) for x in _mk_mapping_list(mp, N)]
+            m = "table_collection_union true %s %s %s %s" % (cz(N), cz(N), _alloc(N), clist(mapping))
+        elif opn == "tree.ll_map_mutations":
+            g = a["g"]
+            if g.get("dtype", "int8") not in ("int8", "int32") or g.get("shape2"):
+                return None
+            geno = _mk_genotypes_list(g, S)
+            anc = a.get("anc")
+            if anc is not None and not (_ints([anc]) and abs(anc) < 2 ** 31):
+                return None
+            m = "map_mutations_entry true %s %s %s" % (cz(S), clist(geno), "None" if anc is None else "(Some %s)" % cz(anc))
+    else:
+        tcn = env.get("tc")
+        if tcn is None:
+            return None
+        if opn in ("table.getitem", "table.ll_get_row"):
+            n = tcn[a["table"]]
+            x = res_id(a["i"], n)
+            if not _ints([x]):
+                return None
+            f = "py_table_getitem" if opn == "table.getitem" else "table_get_row"
+            m = "%s %s %s %s %s" % (f, _alloc(n), _alloc(n + 1), cz(n), cz(x))
+        elif opn == "table.ll_extend" and a.get("dtype", "int32") == "int32":
+            n = tcn[a["table"]]
+            m = "table_extend %s %s %s %s" % (_alloc(n), _alloc(n + 1), cz(n), clist([res_id(s, n) for s in a["ids"]]))
+        elif opn == "table.getitem_ids" and a.get("dtype") in (None, "int32", "int64") and a["ids"]:
+            n = tcn[a["table"]]
+            m = "table_extend %s %s %s %s" % (_alloc(n), _alloc(n + 1), cz(n), clist([res_id(s, n) for s in a["ids"]]))
+        elif opn == "table.keep_rows" and a.get("dtype", "bool") == "bool":
+            n = tcn[a["table"]]
+            m = "table_keep_rows true %s %s %s" % (_alloc(_len_sym(a["len"], n), 1), _alloc(n), cz(n))
+        elif opn in ("table.set_columns_len", "table.append_columns_len") and a.get("col") == "metadata_offset" \
+                and a.get("table") in ("sites", "mutations") and "cols" in env:
+            cl = env["cols"]
+            mo = _resize(cl["mo"], _len_sym(a["len"], len(cl["mo"])))
+            cur = "site_table_set_columns_current" if a["table"] == "sites" else "mutation_table_set_columns_current"
+            m = "%s %s %s %s %s %s" % (cur, _alloc(cl["n"]), clist(cl["so"]), clist(mo), cz(cl["sl"]), cz(cl["ml"]))
+        elif opn == "tc.subset":
+            n = tcn["nodes"]
+            m = "table_collection_subset %s %s %s" % (cz(n), _alloc(n), clist([res_id(s, n) for s in a["nodes"]]))
+        elif opn == "tc.simplify" and a.get("samples") is not None:
+            n = tcn["nodes"]
+            m = "simplifier_init_samples %s %s" % (cz(n), clist([res_id(s, n) for s in a["samples"]]))
+        elif opn == "tc.ibd_within":
+            n = tcn["nodes"]
+            m = "ibd_within_init_current %s %s" % (cz(n), clist([res_id(s, n) for s in a["within"]]))
+        elif opn == "tc.ibd_between":
+            n = tcn["nodes"]
+            m = "ibd_between_init_current %s [%s; %s]" % (cz(n), clist([res_id(s, n) for s in a["a"]]),
+                                                         clist([res_id(s, n) for s in a["b"]]))
+        elif opn == "tc.link_ancestors":
+            n = tcn["nodes"]
+            m = "link_ancestors_init_current %s %s %s" % (cz(n), clist([res_id(s, n) for s in a["samples"]]),
+                                                         clist([res_id(s, n) for s in a["ancestors"]]))
+    if m is None:
+        return None
+    return "verdict_eqb (verdict_of (%s)) %s" % (m, v)
+
+
+def _mk_mapping_list(mapping, n):
+    ln = {"n": n, "n-1": n - 1, "n+1": n + 1, "0": 0}[mapping.get("len", "n")]
+    fill = mapping.get("fill", "id")
+    a = list(range(ln)) if fill == "id" else [res_id(fill, n)] * max(ln, 0)
+    for i, sy in (mapping.get("set") or {}).items():
+        if 0 <= int(i) < len(a):
+            a[int(i)] = res_id(sy, n)
+    return a
+
+
+def _mk_genotypes_list(g, ns):
+    n = {"ns": ns, "ns-1": ns - 1, "ns+1": ns + 1, "0": 0, "2ns": 2 * ns}[g.get("len", "ns")]
+    a = [g.get("fill", 0)] * max(n, 0)
+    for i, v in (g.get("set") or {}).items():
+        if 0 <= int(i) < len(a):
+            a[int(i)] = v
+    return a
 
 
 def defaults(o, fixed=None):
@@ -2330,6 +2552,10 @@ class MapMutations(Monitor):
                   {"fill": 0, "set": {"0": 1, "1": 2, "2": 3}}):
             for alleles in (al4, ["A"], [], big[:64], big[:65], big, ["A", "A"], al4 + [None], [""], ["A" * 1000, "C"]):
                 for anc in (None, "A", 0, 3, 4, -1, 64, 65, "Z", 2 ** 31, 1.5):
+                    if alleles is al4 and (anc is None or isinstance(anc, int)):
+                        yield {"base": rng.choice(bases), "steps": [
+                            {"op": "tree.ll_map_mutations", "args": {"g": g, "anc": anc}},
+                            {"op": "probe.tree", "args": {}}]}
                     if rng.random() < (0.12 if tier == "quick" else 0.5) or (anc is None and alleles is al4):
                         yield {"base": rng.choice(bases), "steps": [
                             {"op": "tree.map_mutations", "args": {"g": g, "alleles": alleles, "anc": anc}},
